@@ -7,7 +7,9 @@ meaning, as a normal form over the operands, equals the meaning NumPy documents 
 class (min_dtype / force_dtype) equals NumPy's result kind; R07.3 the dispatch hooks consult the table and
 decline the rest; R07.4 linear-algebra wrappers announce an inexact kind; R07.5 no in-place store into
 caller-owned arrays; R07.6 slice normalisation; R07.7 dot/matmul/vdot compare the operand shapes before the
-broadcasting product; R07.8 every _Transpose receives normalised, permutation-checked axes.
+broadcasting product (interp: xp/fp lengths); R07.8 every _Transpose receives normalised, permutation-checked axes;
+R07.9 shape preconditions a wrapped evaluable node only asserts are tested by the wrapping implementation where the
+operand is the caller's own; R07.10 index arrays of one subscript are handled jointly (known finding F20).
 Not decided: broadcasting, indexing, reshape, einsum, lowering with point axes (values).
 '''
 
@@ -411,21 +413,32 @@ def check_composites(model, rep):
                f'{key} normalises slice bounds as start={a.get("start")}, stop={a.get("stop")}: not Python\'s slice semantics (e.g. an explicit stop 0 or start 0)', statement='slice-normalisation')
 
 
-NONBROADCAST = {   # NumPy functions of two operands that do NOT broadcast (all of) their axes against each other
-    'dot': 'contracted',      # last axis of the first operand against the second-to-last (or only) axis of the second
-    'matmul': 'contracted',
-    'vdot': 'flattened',      # both operands flattened, sizes must agree
+NONBROADCAST = {   # NumPy functions whose named operands are NOT broadcast against each other: (first operand, second operand, how)
+    'dot': (0, 1, 'contracted'),      # last axis of the first operand against the second-to-last (or only) axis of the second
+    'matmul': (0, 1, 'contracted'),
+    'vdot': (0, 1, 'flattened'),      # both operands flattened, sizes must agree
+    'interp': (1, 2, 'paired'),       # data points xp and values fp: same length
 }
 
 
+def _shape_reads(e):
+    """operand names whose shape/size/length the expression e reads: p.shape, p.size, len(p), numpy.shape(p), numpy.size(p)."""
+    out = set()
+    for n in ast.walk(e):
+        if isinstance(n, ast.Attribute) and isinstance(n.value, ast.Name) and n.attr in ('shape', 'size'):
+            out.add(n.value.id)
+        elif isinstance(n, ast.Call) and src(n.func) in ('len', 'numpy.shape', 'numpy.size') and len(n.args) == 1 and isinstance(n.args[0], ast.Name):
+            out.add(n.args[0].id)
+    return out
+
+
 def _shape_guards(fn, p0, p1):
-    """`if <test reading .shape/.size of both operands>: raise ValueError` statements of fn, in line order."""
+    """`if <test reading the shape/size/length of both operands>: raise ValueError` statements of fn, in line order."""
     out = []
     for s_ in ast.walk(fn):
         if not isinstance(s_, ast.If) or not any(isinstance(b, ast.Raise) and 'ValueError' in src(b) for b in s_.body):
             continue
-        read = {(n.value.id, n.attr) for n in ast.walk(s_.test) if isinstance(n, ast.Attribute) and isinstance(n.value, ast.Name)}
-        if any((p0, a) in read for a in ('shape', 'size')) and any((p1, a) in read for a in ('shape', 'size')):
+        if {p0, p1} <= _shape_reads(s_.test):
             out.append(s_)
     return sorted(out, key=lambda s_: s_.lineno)
 
@@ -435,25 +448,26 @@ def check_contractions(model, rep):
     broadcasting product + sum, must compare the operand shapes first (sibling agreement dot/matmul/vdot)."""
     m, regs = registrations(model)
     by = {fn.name: fn for fn, _ in regs}
-    for name, how in NONBROADCAST.items():
+    for name, (i0, i1, how) in NONBROADCAST.items():
         fn = by.get(name)
         if fn is None:
             raise AnalysisError(f'numpy.{name} implementation not found')
         pos = [a.arg for a in fn.args.args]
-        # the first place where the two operands are combined with broadcasting
-        combine = [n.lineno for n in ast.walk(fn) if (isinstance(n, ast.BinOp) and isinstance(n.op, ast.Mult)) or
-                   (isinstance(n, ast.Call) and src(n.func) in ('broadcast_arrays', '_Wrapper.broadcasted_arrays', 'numpy.multiply', 'multiply'))]
+        p0, p1 = pos[i0], pos[i1]
+        # the places where the two operands are combined with (NumPy or nutils) broadcasting
+        combine = [n.lineno for n in ast.walk(fn) if (isinstance(n, ast.BinOp) or (isinstance(n, ast.Call) and src(n.func) in ('broadcast_arrays', '_Wrapper.broadcasted_arrays', 'numpy.multiply', 'multiply')))
+                   and {p0, p1} <= {x.id for x in ast.walk(n) if isinstance(x, ast.Name)}]
         if not combine:
             raise AnalysisError(f'numpy.{name}: no broadcasting combination of the operands found')
-        guards = [g for g in _shape_guards(fn, pos[0], pos[1]) if g.lineno < max(combine)]
+        guards = [g for g in _shape_guards(fn, p0, p1) if g.lineno < max(combine)]
         if how == 'contracted':   # the test reads the last axis of the first operand
-            guards = [g for g in guards if any(isinstance(n, ast.Subscript) and src(n.value) == f'{pos[0]}.shape' and src(n.slice) == '-1' for n in ast.walk(g.test))]
+            guards = [g for g in guards if any(isinstance(n, ast.Subscript) and src(n.value) == f'{p0}.shape' and src(n.slice) == '-1' for n in ast.walk(g.test))]
         # no broadcasting of the raw operands before the guard
         early = [n.lineno for n in ast.walk(fn) if isinstance(n, ast.Call) and src(n.func) == 'broadcast_arrays' and guards and n.lineno < guards[0].lineno]
         ok = bool(guards) and not early
-        rep.ob('R07.7', f'function:__implementations__.{name}', f'{m.relpath}:{fn.lineno}', ok, f'numpy.{name}: the operand shapes are compared and a mismatch raises ValueError before the broadcasting product' if ok else
-               f'numpy.{name} combines `{pos[0]}` and `{pos[1]}` with broadcasting without first comparing their shapes: an axis of length one is silently broadcast, where NumPy ' +
-               ('rejects the operands' if how == 'contracted' else 'flattens both operands and rejects unequal sizes'),
+        rep.ob('R07.7', f'function:__implementations__.{name}', f'{m.relpath}:{fn.lineno}', ok, f'numpy.{name}: the shapes of `{p0}` and `{p1}` are compared and a mismatch raises ValueError before they are combined with broadcasting' if ok else
+               f'numpy.{name} combines `{p0}` and `{p1}` with broadcasting without first comparing their shapes: an axis of length one is silently broadcast, where NumPy ' +
+               {'contracted': 'rejects the operands', 'flattened': 'flattens both operands and rejects unequal sizes', 'paired': 'requires equal lengths'}[how],
                statement='contracted-lengths-checked' if how == 'contracted' else 'operand-sizes-checked')
 
 
@@ -546,6 +560,155 @@ def check_axes(model, rep):
         raise AnalysisError(f'only {nsites} constructions of _Transpose found')
 
 
+SHAPE_PRE = ('ndim', 'square')
+
+
+def _node_preconditions(model, cname):
+    """{field: set of 'ndim'/'square'} asserted by evaluable.<cname>.__post_init__ on the shape of its operand fields, and the field order."""
+    ev = model.module('evaluable')
+    c = ev.classes.get(cname)
+    if c is None:
+        raise AnalysisError(f'evaluable.{cname} not found')
+    fields = [st.target.id for st in c.node.body if isinstance(st, ast.AnnAssign) and isinstance(st.target, ast.Name)]
+    pi = c.members.get('__post_init__')
+    pre = {}
+    if pi is None:
+        return fields, pre
+    for a in ast.walk(pi.func.node):
+        if not isinstance(a, ast.Assert):
+            continue
+        for n in ast.walk(a.test):
+            if isinstance(n, ast.Compare) and isinstance(n.left, ast.Attribute) and n.left.attr == 'ndim' and src(n.left.value).startswith('self.') and isinstance(n.comparators[0], ast.Constant):
+                k, op = n.comparators[0].value, type(n.ops[0])
+                if (op in (ast.Eq,) and k >= 0) or (op is ast.GtE and k >= 2) or (op is ast.Gt and k >= 1):
+                    pre.setdefault(src(n.left.value)[5:], {})['ndim'] = (op.__name__, k)
+            if isinstance(n, ast.Call) and src(n.func) == '_certainly_different':
+                t = ' '.join(src(x) for x in n.args)
+                for fld in fields:
+                    if f'self.{fld}.shape[-1]' in t and f'self.{fld}.shape[-2]' in t or f'*self.{fld}.shape[-2:]' in t:
+                        pre.setdefault(fld, {})['square'] = True
+    return fields, pre
+
+
+def check_wrapped_preconditions(model, rep):
+    """R07.9: shape preconditions that an evaluable node only *asserts* (AssertionError while lowering, nothing under -O) are
+    established with a raising test by the NumPy implementation that wraps the node, wherever a caller-supplied operand reaches
+    the node unchanged."""
+    m, regs = registrations(model)
+    impl = model.cls('function:__implementations__') if hasattr(model, 'cls') else None
+    n = 0
+    for fn, names in regs:
+        pos = [a.arg for a in fn.args.args]
+        # names that hold a caller-supplied operand unchanged: parameters, and `x = Array.cast(param)`, never bound to anything else anywhere in the function
+        binds = {}
+        other = set()
+        for s_ in ast.walk(fn):
+            if isinstance(s_, ast.Assign) and len(s_.targets) == 1 and isinstance(s_.targets[0], ast.Name):
+                binds.setdefault(s_.targets[0].id, []).append(s_.value)
+            elif isinstance(s_, (ast.Assign, ast.AugAssign, ast.AnnAssign, ast.For, ast.comprehension, ast.NamedExpr, ast.withitem)):
+                tg = s_.targets if isinstance(s_, ast.Assign) else [s_.optional_vars] if isinstance(s_, ast.withitem) else [s_.target]
+                other |= {x.id for t in tg if t is not None for x in ast.walk(t) if isinstance(x, ast.Name)}
+        direct = {}
+        for p_ in pos:
+            if p_ not in other and all(isinstance(v, ast.Call) and src(v.func) == 'Array.cast' and [src(x) for x in v.args] == [p_] for v in binds.get(p_, [])):
+                direct[p_] = p_
+        for t, vs in binds.items():
+            if t not in pos and t not in other and all(isinstance(v, ast.Call) and src(v.func) == 'Array.cast' and len(v.args) == 1 and src(v.args[0]) in direct and src(v.args[0]) in pos for v in vs):
+                direct[t] = src(vs[0].args[0])
+        for c in ast.walk(fn):
+            if not (isinstance(c, ast.Call) and src(c.func) == '_Wrapper' and c.args):
+                continue
+            for cname, skip in _wrapped_nodes(model, c.args[0], binds):
+                fields, pre = _node_preconditions(model, cname)
+                for fld, what in pre.items():
+                    if fld not in fields:
+                        continue
+                    i = fields.index(fld) - skip
+                    if not 0 <= i < len(c.args) - 1:
+                        continue
+                    op = c.args[1 + i]
+                    without_points = isinstance(op, ast.Call) and src(op.func) == '_WithoutPoints'
+                    if without_points:
+                        op = op.args[0]
+                    if not (isinstance(op, ast.Name) and op.id in direct):
+                        continue   # the operand was built by this implementation: its shape is this implementation's doing (not decided)
+                    if 'ndim' in what and what['ndim'][0] == 'Eq' and not without_points:
+                        continue   # lowering prepends point axes: an exact ndim is not a function-level fact
+                    n += 1
+                    need = {'ndim'} | ({'shape'} if what.get('square') else set())
+                    guards = [g for g in ast.walk(fn) if isinstance(g, ast.If) and any(isinstance(b, ast.Raise) for b in g.body) and
+                              need <= {a.attr for a in ast.walk(g.test) if isinstance(a, ast.Attribute) and isinstance(a.value, ast.Name) and a.value.id in direct and direct[a.value.id] == direct[op.id]}
+                              and g.lineno < c.lineno]
+                    ok = bool(guards)
+                    want = ' and '.join(([f'ndim {dict(Eq="==", GtE=">=", Gt=">")[what["ndim"][0]]} {what["ndim"][1]}'] if 'ndim' in what else []) + (['equal last two axes'] if what.get('square') else []))
+                    rep.ob('R07.9', f'function:__implementations__.{fn.name}', f'{m.relpath}:{c.lineno}', ok,
+                           f'{names[0]}: evaluable.{cname} requires {want} of `{op.id}`; the implementation tests it and raises first' if ok else
+                           f'{names[0]} hands the caller\'s operand `{op.id}` to evaluable.{cname}, which only asserts {want}: an operand NumPy rejects is accepted when the expression is built and fails an internal assertion (or nothing, under -O) when it is lowered',
+                           statement=f'precondition {cname}.{fld}@{fn.name}')
+    if n < 6:
+        raise AnalysisError(f'only {n} directly wrapped operands with asserted shape preconditions found (det, inv, eig, eigh, searchsorted expected)')
+
+
+def _wrapped_nodes(model, target, binds, depth=0):
+    """evaluable node classes constructed by the lowering callable `target` of a _Wrapper call: [(class name, number of leading
+    constructor fields bound elsewhere)].  Resolves local names, functools.partial over evaluable.X, and partial over a helper in
+    __implementations__ that constructs evaluable.X from its trailing parameters."""
+    if depth > 3:
+        return []
+    t = src(target)
+    if isinstance(target, ast.Attribute) and t.startswith('evaluable.') and t[10:11].isupper():
+        return [(t[10:], 0)]
+    if isinstance(target, ast.Name):
+        return [x for v in binds.get(target.id, []) for x in _wrapped_nodes(model, v, binds, depth + 1)]
+    if isinstance(target, ast.Call) and src(target.func) == 'functools.partial' and target.args:
+        inner = target.args[0]
+        bound = len(target.args) - 1
+        ti = src(inner)
+        if ti.startswith('evaluable.'):
+            return [(c, k - 0) for c, k in _wrapped_nodes(model, inner, binds, depth + 1)] if bound == 0 else []
+        if ti.startswith('__implementations__.'):
+            h = model.functions.get('function:' + ti)
+            if h is None:
+                return []
+            hp = [a.arg for a in h.node.args.args]
+            out = []
+            for c in ast.walk(h.node):
+                if isinstance(c, ast.Call) and src(c.func).startswith('evaluable.') and src(c.func)[10:11].isupper():
+                    # operand j of the wrapper is helper parameter hp[bound + j]; it must be constructor argument j
+                    if [src(a) for a in c.args[:1]] == hp[bound:bound + 1]:
+                        out.append((src(c.func)[10:], 0))
+            return out
+    return []
+
+
+def check_getitem(model, rep):
+    """R07.10: NumPy treats all index arrays of one subscript jointly (they are broadcast against each other, and the position of
+    the resulting axes depends on whether they are adjacent).  An item loop whose only carried state is the array so far and the
+    current axis handles every item in isolation, so it cannot distinguish one index array from several: necessary condition for
+    NumPy's result is that the loop (or a test before it) takes note of index arrays seen."""
+    f = model.func('function:Array.__getitem__')
+    loops = [s_ for s_ in f.node.body if isinstance(s_, ast.For)]
+    main = [l for l in loops if any(isinstance(c, ast.Call) and src(c.func) in ('numpy.take', 'take') for c in ast.walk(l))]
+    if len(main) != 1:
+        raise AnalysisError('Array.__getitem__: item loop applying numpy.take not found')
+    loop = main[0]
+    carried = {n.id for s_ in ast.walk(loop) if isinstance(s_, (ast.Assign, ast.AugAssign)) for t in (s_.targets if isinstance(s_, ast.Assign) else [s_.target]) for n in ast.walk(t) if isinstance(n, ast.Name)}
+    takes = [c for c in ast.walk(loop) if isinstance(c, ast.Call) and src(c.func) in ('numpy.take', 'take')]
+    arr = {src(c.args[0]) for c in takes}
+    axis = {src(c.args[2]) for c in takes if len(c.args) > 2}
+    extra = carried - arr - axis
+    # a test anywhere in the method that looks at the dimension of the items (numpy.ndim(it), isinstance(it, (list, numpy.ndarray, Array)) ...) and raises or branches
+    item = src(loop.target)
+    pre = [s_ for s_ in ast.walk(f.node) if isinstance(s_, (ast.If, ast.Assert, ast.IfExp)) and s_.lineno < takes[0].lineno and
+           any(isinstance(c, ast.Call) and src(c.func) in ('numpy.ndim', 'isinstance', 'numpy.shape', 'numpy.asarray') for c in ast.walk(s_.test)) and
+           not all(isinstance(c, ast.Call) and src(c.func) == 'isinstance' and src(c.args[1]) in ('tuple', 'slice') for c in ast.walk(s_.test) if isinstance(c, ast.Call))]
+    ok = bool(extra) or bool(pre)
+    rep.ob('R07.10', f.key, f.where(loop), ok, 'the subscript loop takes note of index arrays seen' if ok else
+           f'the subscript loop carries only {sorted(carried)} from item to item and applies `{src(takes[0])}` to each item on its own: two or more index arrays in one subscript are applied one after the other '
+           f'(outer indexing, a[[0,1],[0,1]] of a (2,3) array has shape (2,2)) where NumPy broadcasts them against each other (shape (2,)) and rejects index arrays that do not broadcast',
+           statement='index-arrays-handled-jointly')
+
+
 def _ord(fn, node):
     calls = [c for c in ast.walk(fn) if isinstance(c, ast.Call) and src(c.func) == '_Wrapper']
     calls.sort(key=lambda c: (c.lineno, c.col_offset))
@@ -580,6 +743,8 @@ def run(model, rep, tier):
     rep.rule('R07.5', 'implementations never write into caller-owned arrays')
     rep.rule('R07.6', 'slice bounds are normalised with Python slice semantics in both layers')
     rep.rule('R07.7', 'non-broadcasting functions of two operands (dot, matmul, vdot) compare the operand shapes before the broadcasting product')
+    rep.rule('R07.9', 'shape preconditions asserted by a wrapped evaluable node are tested (raise) by the wrapping NumPy implementation')
+    rep.rule('R07.10', 'index arrays of one subscript are handled jointly, as NumPy does')
     rep.rule('R07.8', 'every _Transpose is constructed from normalised, permutation-checked axes')
     rep.trusted_base.append('oracles/numpy_api.json (NumPy documented semantics)')
     check_chains(model, rep, oracle)
@@ -587,6 +752,8 @@ def run(model, rep, tier):
     check_composites(model, rep)
     check_contractions(model, rep)
     check_axes(model, rep)
+    check_wrapped_preconditions(model, rep)
+    check_getitem(model, rep)
     check_namespace_table(model, rep, oracle)
     rep.require('R07.1', 55)
     rep.require('R07.2', 40)
